@@ -2,6 +2,7 @@
 B = "core/BoundedSPSCQueue.h"
 U = "core/UnboundedSPSCQueue.h"
 BW = "backend/BackendWorker.h"
+TC = "core/ThreadContextManager.h"
 CASES = [
  # ---------------- C01
  dict(name="c01-commit_write-relaxed", ids=["C01"], rule="C01.R1b", subs=[(B, "_atomic_writer_pos.store(_writer_pos, std::memory_order_release)", "_atomic_writer_pos.store(_writer_pos, std::memory_order_relaxed)")]),
@@ -479,4 +480,86 @@ CASES = [
  dict(name="c07-mask-not-restored", ids=["C07"], rule="C07.R5", subs=[("Backend.h", "                     sigprocmask(SIG_SETMASK, &oldset, nullptr);\n", "")]),
  dict(name="c07-default-signals-miss-sigill", ids=["C07"], rule="C07.R4j", subs=[("backend/SignalHandler.h", "std::vector<int> catchable_signals{SIGTERM, SIGINT, SIGABRT, SIGFPE, SIGILL, SIGSEGV};", "std::vector<int> catchable_signals{SIGTERM, SIGINT, SIGABRT, SIGFPE, SIGSEGV};")]),
  dict(name="c07-alarm-after-logging", ids=["C07"], rule="C07.R4g", subs=[("backend/SignalHandler.h", "  alarm(SignalHandlerContext::instance().signal_handler_timeout_seconds.load());\n#endif", "#endif"), ("backend/SignalHandler.h", "      if (should_reraise_signal)\n      {\n        QUILL_SIGNAL_HANDLER_LOG", "      alarm(SignalHandlerContext::instance().signal_handler_timeout_seconds.load());\n      if (should_reraise_signal)\n      {\n        QUILL_SIGNAL_HANDLER_LOG")]),
+
+ # ---------------- C18
+ dict(name="c18-prefix-process-no-index-reset", ids=["C18"], rule="C18.R1", subs=[("backend/BacktraceStorage.h", "    _stored_events.clear();\n    _index = 0;\n  }", "    _stored_events.clear();\n  }")]),
+ dict(name="c18-prefix-zero-capacity", ids=["C18"], rule="C18.R3c", subs=[("backend/BacktraceStorage.h", """    if (_capacity == 0)
+    {
+      // nothing can be retained, and there is no slot to overwrite
+      return;
+    }
+""", "")]),
+ dict(name="c18-event-moved-not-copied", ids=["C18"], rule="C18.R2c", subs=[(BW, """          TransitEvent transit_event_copy;
+          transit_event.copy_to(transit_event_copy);
+
+          transit_event.logger_base->backtrace_storage->store(
+            std::move(transit_event_copy), thread_context.thread_id(), thread_context.thread_name());""", """          transit_event.logger_base->backtrace_storage->store(
+            std::move(transit_event), thread_context.thread_id(), thread_context.thread_name());""")]),
+ dict(name="c18-flush-test-before-dispatch", ids=["C18"], rule="C18.R2d", subs=[(BW, """        _dispatch_transit_event_to_sinks(transit_event, thread_context.thread_id(),
+                                         thread_context.thread_name());
+
+        // We also need to check the severity""", """        // We also need to check the severity"""), (BW, """              { _dispatch_transit_event_to_sinks(te, thread_id, thread_name); });
+          }
+        }
+      }
+      else
+      {
+        if (transit_event.logger_base->backtrace_storage)
+        {
+          // this is a backtrace log""", """              { _dispatch_transit_event_to_sinks(te, thread_id, thread_name); });
+          }
+        }
+        _dispatch_transit_event_to_sinks(transit_event, thread_context.thread_id(),
+                                         thread_context.thread_name());
+      }
+      else
+      {
+        if (transit_event.logger_base->backtrace_storage)
+        {
+          // this is a backtrace log""")]),
+ dict(name="c18-backtrace-level-dispatched", ids=["C18"], rule="C18.R2a", subs=[(BW, """          TransitEvent transit_event_copy;
+          transit_event.copy_to(transit_event_copy);
+""", """          TransitEvent transit_event_copy;
+          transit_event.copy_to(transit_event_copy);
+          _dispatch_transit_event_to_sinks(transit_event, thread_context.thread_id(), thread_context.thread_name());
+""")]),
+ dict(name="c18-process-does-not-clear", ids=["C18"], rule="C18.R2h", subs=[("backend/BacktraceStorage.h", "    // finally clean all messages\n    _stored_events.clear();\n    _index = 0;", "    // finally clean all messages\n    if (_stored_events.size() > _capacity) { _stored_events.clear(); _index = 0; }")]),
+ dict(name="c18-store-wrap-off-by-one", ids=["C18"], rule="C18.R3b", subs=[("backend/BacktraceStorage.h", "      if (_index < _capacity - 1)\n      {\n        _index += 1;", "      if (_index < _capacity)\n      {\n        _index += 1;")]),
+ dict(name="c18-replay-starts-at-zero", ids=["C18"], rule="C18.R2g", subs=[("backend/BacktraceStorage.h", "    uint32_t index = _index;", "    uint32_t index = 0;")]),
+ dict(name="c18-flush-level-strict", ids=["C18"], rule="C18.R2d", subs=[(BW, "        if (QUILL_UNLIKELY(transit_event.log_level() >=\n", "        if (QUILL_UNLIKELY(transit_event.log_level() >\n")]),
+
+ # ---------------- C20
+ dict(name="c20-prefix-counter-uint8", ids=["C20"], rule="C20.R1", subs=[(TC, "std::atomic<uint32_t> _invalid_thread_context_count{0};", "std::atomic<uint8_t> _invalid_thread_context_count{0};")]),
+ dict(name="c20-counter-uint16", ids=["C20"], rule="C20.R1", subs=[(TC, "std::atomic<uint32_t> _invalid_thread_context_count{0};", "std::atomic<uint16_t> _invalid_thread_context_count{0};")]),
+ dict(name="c20-dtor-does-not-count", ids=["C20"], rule="C20.R2c", subs=[(TC, """    // Notify the backend thread that one context has been removed
+    ThreadContextManager::instance().add_invalid_thread_context();""", """    // Notify the backend thread that one context has been removed""")]),
+ dict(name="c20-count-before-invalid", ids=["C20"], rule="C20.R2c", subs=[(TC, """    _thread_context->mark_invalid();
+
+    // Notify the backend thread that one context has been removed
+    ThreadContextManager::instance().add_invalid_thread_context();""", """    ThreadContextManager::instance().add_invalid_thread_context();
+    _thread_context->mark_invalid();""")]),
+ dict(name="c20-try_shrink-without-empty", ids=["C20"], rule="C20.R4f", subs=[("backend/TransitEventBuffer.h", "    if (_shrink_requested && empty())", "    if (_shrink_requested)")]),
+ dict(name="c20-decrement-without-erase", ids=["C20"], rule="C20.R2d", subs=[(TC, """    _thread_contexts.erase(thread_context_it);
+
+    // Decrement the counter since we found something to
+    _invalid_thread_context_count.fetch_sub(1, std::memory_order_relaxed);""", """    // Decrement the counter since we found something to
+    _invalid_thread_context_count.fetch_sub(1, std::memory_order_relaxed);
+    if (thread_context_it != _thread_contexts.end() && !thread_context_it->get()->is_valid()) { _thread_contexts.erase(thread_context_it); }""")]),
+ dict(name="c20-erase-outside-lock", ids=["C20", "C17"], rule="R", subs=[(TC, """  void remove_shared_invalidated_thread_context(ThreadContext const* thread_context)
+  {
+    LockGuard const lock{_spinlock};
+""", """  void remove_shared_invalidated_thread_context(ThreadContext const* thread_context)
+  {
+""")]),
+ dict(name="c20-request-shrink-on-growth", ids=["C20"], rule="C20.R4d", subs=[(BW, "if ((read_result.new_capacity < read_result.previous_capacity) && thread_context->_transit_event_buffer)", "if ((read_result.new_capacity > read_result.previous_capacity) && thread_context->_transit_event_buffer)")]),
+ dict(name="c20-no-cleanup-when-idle", ids=["C20"], rule="C20.R3a", subs=[(BW, """      if (queues_and_events_empty)
+      {
+        _cleanup_invalidated_thread_contexts();
+        _cleanup_invalidated_loggers();""", """      if (queues_and_events_empty)
+      {
+        _cleanup_invalidated_loggers();""")]),
+ dict(name="c20-try_shrink-keeps-positions", ids=["C20"], rule="C20.R4f", subs=[("backend/TransitEventBuffer.h", "        _mask = _capacity - 1;\n        _writer_pos = 0;\n        _reader_pos = 0;\n      }", "        _mask = _capacity - 1;\n      }")]),
+ dict(name="c20-capacity-reported-from-consumer", ids=["C20", "C02"], rule="R", subs=[("Frontend.h", """        ->template get_spsc_queue<TFrontendOptions::queue_type>()
+        .producer_capacity();""", """        ->template get_spsc_queue<TFrontendOptions::queue_type>()
+        .capacity();""")]),
 ]
